@@ -1,6 +1,8 @@
 package consensus
 
 import (
+	"time"
+
 	"go.sia.tech/core/internal/vh"
 	"go.sia.tech/core/types"
 )
@@ -20,8 +22,17 @@ func vhNormalize(id string, v any) {
 	if s, ok := v.(*State); ok {
 		// network parameters are not encoded
 		s.Network = nil
-		// unused timestamp slots are not transmitted: past the first 11 blocks all are used
-		vh.Assume(vh.And(s.Index.Height >= 11, s.Index.Height < 1<<62))
+		// unused timestamp slots are not transmitted: either all 11 are used, or
+		// (young chain) only height+1 of them and the rest are zero
+		if vh.Choice("young", 2) == 0 {
+			vh.Assume(vh.And(s.Index.Height >= 11, s.Index.Height < 1<<62))
+		} else {
+			h := vh.Choice("height", 10)
+			s.Index.Height = uint64(h)
+			for i := h + 1; i < len(s.PrevTimestamps); i++ {
+				s.PrevTimestamps[i] = time.Time{}
+			}
+		}
 		vhNormAcc(&s.Elements)
 	}
 	if a, ok := v.(*ElementAccumulator); ok {
